@@ -6,6 +6,7 @@ re-executed once per feasible decision prefix.  Obligations are (name, path-cond
 are discharged by z3 (cvc5 as second opinion) after the path ends.
 """
 import itertools
+import threading
 import time
 
 import z3
@@ -401,7 +402,16 @@ def solve(pc, goal, timeout_ms=10000, seed=0):
     s.add(*pc)
     s.add(z3.Not(goal))
     t = time.time()
-    r = s.check()
+    # z3 does not always honour its own timeout (array/quantifier tactics): interrupt it from a timer thread
+    timer = threading.Timer(timeout_ms / 1000.0 + 2.0, lambda: z3.main_ctx().interrupt())
+    timer.daemon = True
+    timer.start()
+    try:
+        r = s.check()
+    except z3.Z3Exception:
+        r = z3.unknown
+    finally:
+        timer.cancel()
     dt = time.time() - t
     if r == z3.sat:
         return "sat", s.model(), dt
